@@ -14,7 +14,7 @@ import io
 import itertools
 
 PROP = 'C16'
-TARGETS = ['T16a', 'T16b', 'T16c', 'T16d', 'T16e', 'T16f']
+TARGETS = ['T16a', 'T16b', 'T16c', 'T16d', 'T16e', 'T16f', 'T15e']
 LEAN_MODULES = ['HdVerif.Props.C16']
 MODEL_MODULES = ['HdVerif.Model.SRReport']
 NAMESPACE = 'HdVerif.C16'
@@ -27,8 +27,8 @@ ASSUMPTIONS = [
     'kind of a container WITHOUT template identification is decided by content: the standard allows a single 2-D image '
     'region and a region-in-space reference in both TID 1410 and TID 1411; generated template-less volumetric groups carry '
     '>= 2 regions, and a template-less region-in-space group may be returned by both ROI queries (oracle accepts either)',
-    'graphic-type filter on a volumetric group with regions of different graphic types: the first region decides '
-    '(library choice; oracle accepts either when the types differ)',
+    'graphic-type filter on a volumetric group with regions of different graphic types: the group matches iff SOME region '
+    'has the graphic type (whatever the order of the regions)',
     '3-D coordinates (3-D image regions, volume surfaces) carry no referenced instance: a referenced-UID filter never '
     'matches them',
     'code equality is (value, scheme designator) (C17)',
@@ -129,8 +129,6 @@ def satisfies(g, f):
                 gts = [a for a, _ in ref['regions']]
                 if all(a != name for a in gts):
                     return 'no'
-                if not all(a == name for a in gts):
-                    amb = True
             else:
                 return 'no'
         else:
@@ -554,7 +552,8 @@ def _real_items(group_item):
             for k in it.get('ContentSequence', []):
                 kids.append({'name': code(k.ConceptNameCodeSequence), 'vt': str(k.ValueType), 'rel': str(k.RelationshipType), 'ref': ref(k)})
         out.append({'name': code(it.ConceptNameCodeSequence), 'vt': vt, 'rel': str(it.RelationshipType), 'value': value,
-                    'graphic': str(it.GraphicType) if 'GraphicType' in it else '', 'ref': ref(it), 'kids': kids})
+                    'graphic': str(it.GraphicType) if 'GraphicType' in it else '', 'ref': ref(it), 'kids': kids,
+                    'has_seq': vt in ('SCOORD', 'SCOORD3D') and 'ContentSequence' in it})
     tid = None
     if 'ContentTemplateSequence' in group_item:
         tid = str(group_item.ContentTemplateSequence[0].TemplateIdentifier)
@@ -576,6 +575,7 @@ def _check_layout(ctx, c, reqs, pending):
         for it in pred['items']:
             if it['vt'] == 'NUM':
                 it['value'] = str(float(it['value']))
+            it.setdefault('has_seq', bool(it.get('kids')))
         case = dict(case0, group=k, what='layout')
         ctx.case(path='layout', ref_type=g['ref']['type'], kind=g['kind'] + ('' if g['template'] else '*'))
         if real != pred:
@@ -694,6 +694,60 @@ def _shapes(ctx, reqs, pending, spec_reqs, spec_pending, only_idx=None):
     ctx.exhaustive.append(f'all {len(pairs)} ordered pairs of {len(SHAPES)} group shapes (kind x reference type x template id), three unfiltered queries each')
 
 
+def _perturb(r, cont, what, pool):
+    """one third-party perturbation of a group container, in place"""
+    import highdicom as hd
+    from gen import srreports
+    items = list(cont.ContentSequence)
+    is_ref = lambda it: it.ConceptNameCodeSequence[0].CodeValue in ('111030', '121214', '121191', '121231', '130488')  # noqa: E731
+    refs_ = [i for i in items if is_ref(i)]
+    if what == 'shuffle':
+        r.shuffle(items)
+    elif what == 'duplicate-ref' and refs_:
+        items.append(__import__('copy').deepcopy(refs_[0]))
+    elif what == 'second-type':
+        items.append(hd.sr.CompositeContentItem(
+            name=hd.sr.CodedConcept(value='130488', scheme_designator='DCM', meaning='Region in Space'),
+            referenced_sop_class_uid=srreports.RTSS, referenced_sop_instance_uid=pool['rts'][0][1], relationship_type='CONTAINS'))
+    elif what == 'remove-ref':
+        items = [i for i in items if not is_ref(i)]
+    elif what == 'ref-relationship' and refs_:
+        refs_[0].RelationshipType = 'HAS PROPERTIES'
+    elif what in ('bogus-graphic', 'no-graphic'):
+        # a stored graphic type that is no member of the enumeration (or of the OTHER enumeration), or none at all
+        gr = [i for i in refs_ if 'GraphicType' in i]
+        if gr:
+            tgt = r.choice(gr)
+            if what == 'no-graphic':
+                del tgt.GraphicType
+            else:
+                tgt.GraphicType = r.choice(['FOO', 'ELLIPSOID', 'CIRCLE', 'polyline'])
+    elif what == 'no-sop':
+        # the ROI reference item (segmentation frame / segment / region in space) without ReferencedSOPSequence
+        cand = [i for i in refs_ if 'ReferencedSOPSequence' in i]
+        if cand:
+            del r.choice(cand).ReferencedSOPSequence
+    elif what == 'no-sop-source':
+        # a source image (top level, or the child of a region) without ReferencedSOPSequence
+        cand = [i for i in items if str(i.ValueType) == 'IMAGE' and not is_ref(i) and 'ReferencedSOPSequence' in i]
+        cand += [k2 for i in refs_ for k2 in i.get('ContentSequence', []) if 'ReferencedSOPSequence' in k2]
+        if cand:
+            del r.choice(cand).ReferencedSOPSequence
+    elif what == 'no-children':
+        cand = [i for i in refs_ if str(i.ValueType) == 'SCOORD' and 'ContentSequence' in i]
+        if cand:
+            del r.choice(cand).ContentSequence
+    elif what == 'reverse-regions':
+        # same regions, other order: nothing the queries answer may change
+        pos = [n for n, i in enumerate(items) if is_ref(i)]
+        for a_, b_ in zip(pos, reversed([items[n] for n in pos])):
+            items[a_] = b_
+    if what == 'strip' or r.random() < 0.3:
+        if 'ContentTemplateSequence' in cont:
+            del cont.ContentTemplateSequence
+    cont.ContentSequence = hd.sr.ContentSequence(items)
+
+
 def _third_party(ctx, reqs3, pending3, only_idx=None):
     """Containers as a third party might write them (and as nobody should): items reordered, reference items duplicated, a
     second reference of another type added, the reference removed or given another relationship, template ids stripped.
@@ -717,26 +771,9 @@ def _third_party(ctx, reqs3, pending3, only_idx=None):
             for u in cont.ContentSequence:
                 if str(u.ValueType) == 'UIDREF' and u.ConceptNameCodeSequence[0].CodeValue == '112040':
                     u.UID = groups[k]['tracking_uid']
-            items = list(cont.ContentSequence)
-            is_ref = lambda it: it.ConceptNameCodeSequence[0].CodeValue in ('111030', '121214', '121191', '121231', '130488')  # noqa: E731
-            refs_ = [i for i in items if is_ref(i)]
-            what = r.choice(['none', 'shuffle', 'duplicate-ref', 'second-type', 'remove-ref', 'ref-relationship', 'strip'])
-            if what == 'shuffle':
-                r.shuffle(items)
-            elif what == 'duplicate-ref' and refs_:
-                items.append(__import__('copy').deepcopy(refs_[0]))
-            elif what == 'second-type':
-                items.append(hd.sr.CompositeContentItem(
-                    name=hd.sr.CodedConcept(value='130488', scheme_designator='DCM', meaning='Region in Space'),
-                    referenced_sop_class_uid=srreports.RTSS, referenced_sop_instance_uid=pool['rts'][0][1], relationship_type='CONTAINS'))
-            elif what == 'remove-ref':
-                items = [i for i in items if not is_ref(i)]
-            elif what == 'ref-relationship' and refs_:
-                refs_[0].RelationshipType = 'HAS PROPERTIES'
-            if what == 'strip' or r.random() < 0.3:
-                if 'ContentTemplateSequence' in cont:
-                    del cont.ContentTemplateSequence
-            cont.ContentSequence = hd.sr.ContentSequence(items)
+            what = r.choice(['none', 'shuffle', 'duplicate-ref', 'second-type', 'remove-ref', 'ref-relationship', 'strip',
+                             'bogus-graphic', 'no-graphic', 'no-sop', 'no-sop-source', 'no-children', 'reverse-regions'])
+            _perturb(r, cont, what, pool)
             kinds.append(what)
         model_groups = [_real_items(c) for c in conts]
         uids = [g['tracking_uid'] for g in groups]
@@ -759,6 +796,89 @@ def _third_party(ctx, reqs3, pending3, only_idx=None):
                 reqs3.append(('queryItems', {'method': method, 'groups': model_groups,
                                              'filters': {k: (list(v) if isinstance(v, tuple) else v) for k, v in f.items()}}))
                 pending3.append((case, ('ok', got) if ok else ('err', res[1])))
+
+
+MALFORMED = ['bogus-graphic', 'no-graphic', 'no-sop', 'no-sop-source', 'no-children', 'reverse-regions']
+ROI_SHAPES = [s_ for s_ in SHAPES if s_[0] != 'image' and s_[1] != 'regions2d-1']
+
+
+def _malformed(ctx, reqs3, pending3, only_idx=None):
+    """Every ROI group shape x every malformation of a stored item (graphic type outside its enumeration / absent,
+    ReferencedSOPSequence of the reference item / of a source image removed, region without ContentSequence, regions in
+    reverse order), the malformed group first or second of two, queried by all three methods without filter and with every
+    value of every single filter: ok-vs-error, the groups returned (L0) and the kind of error (L1) against the model's
+    arms.  `reverse-regions` is no malformation: the oracle demands the same answer as before the reversal."""
+    import copy
+    import highdicom as hd
+    from gen import srreports
+    from pydicom.sr.codedict import codes
+    combos = [(sh, m, pos) for sh in ROI_SHAPES for m in MALFORMED for pos in (0, 1)]
+    n = len(combos) if ctx.tier != 'quick' else ctx.n(48, len(combos))
+    idxs = ([only_idx] if only_idx is not None else
+            (range(len(combos)) if n >= len(combos) else sorted(ctx.rng('malformed-pick', 0).sample(range(len(combos)), n))))
+    for idx in idxs:
+        shape, what, pos = combos[idx]
+        r = ctx.rng('malformed', idx)
+        pool = srreports.instance_pool(r)
+        other = r.choice(ROI_SHAPES)
+        res = _call(lambda: [_shape_group(r, pool, k + 1, sh) for k, sh in enumerate([shape, other] if pos == 0 else [other, shape])])
+        if res[0] != 'ok':
+            ctx.note(f'malformed {idx}: {res[2]}')
+            continue
+        groups = res[1]
+        oc = hd.sr.ObservationContext(observer_person_context=hd.sr.ObserverContext(
+            observer_type=codes.DCM.Person, observer_identifying_attributes=hd.sr.PersonObserverIdentifyingAttributes(name='Doe^Jane')))
+        res = _call(lambda: hd.sr.MeasurementReport(observation_context=oc, procedure_reported=codes.LN.CTUnspecifiedBodyRegion,
+                                                    imaging_measurements=[srreports.build_group(r, g) for g in groups]))
+        case0 = {'stream': 'malformed', 'seed': ctx.seed, 'idx': idx, 'shape': list(shape), 'malformation': what, 'position': pos}
+        if res[0] != 'ok':
+            ctx.fail(case0, f'report of admissible groups not constructed: {res[2]}', site='report/construct')
+            continue
+        rep = res[1]
+        uids = [g['tracking_uid'] for g in groups]
+        pools = _pools(groups, pool)
+        before = {}
+        if what == 'reverse-regions':
+            for method in ('planar', 'volumetric'):
+                for gt in pools['graphic_type']:
+                    f = {nm: (gt if nm == 'graphic_type' else None) for nm in FILTERS[method]}
+                    res = _call(getattr(rep, METHODS[method]), **_to_args(f))
+                    before[(method, gt)] = [_tracking(s_) for s_ in res[1]] if res[0] == 'ok' else ('err', res[1])
+        conts = rep._find_measurement_groups()
+        tpl = 'ContentTemplateSequence' in conts[pos]
+        tpl_seq = copy.deepcopy(conts[pos].ContentTemplateSequence) if tpl else None
+        _perturb(r, conts[pos], what, pool)
+        if tpl and 'ContentTemplateSequence' not in conts[pos]:
+            conts[pos].ContentTemplateSequence = tpl_seq        # the shape (with / without template id) is part of the case
+        model_groups = [_real_items(c) for c in conts]
+        for method in ('planar', 'volumetric', 'image'):
+            fl = [{nm: None for nm in FILTERS[method]}]
+            for nm in FILTERS[method]:
+                vals = pools[nm] if nm in ('graphic_type', 'reference_type') else pools[nm][:3] + pools[nm][-1:]
+                fl += [{m: (v if m == nm else None) for m in FILTERS[method]} for v in vals]
+            for f in fl:
+                res = _call(getattr(rep, METHODS[method]), **_to_args(f))
+                case = dict(case0, method=method, filters={k: v for k, v in f.items() if v is not None})
+                ok = res[0] == 'ok'
+                ctx.case(path='malformed', method=method, malformation=what, outcome=('ok' if ok else res[2].split(':')[0]),
+                         nontrivial_key=('malformed', tuple(shape), what, pos, method, ok, tuple(k for k in f if f[k] is not None)))
+                got = None
+                if ok:
+                    got = [uids.index(_tracking(s_)) if _tracking(s_) in uids else -1 for s_ in res[1]]
+                    if -1 in got or got != sorted(set(got)):
+                        ctx.fail(case, {'what': 'answer is not a duplicate-free list of the report\'s groups in document order',
+                                        'got': got}, site=f'{method}/third-party-order')
+                if what == 'reverse-regions' and f.get('graphic_type') is not None and (method, f['graphic_type']) in before:
+                    now = [_tracking(s_) for s_ in res[1]] if ok else ('err', res[1])
+                    if now != before[(method, f['graphic_type'])]:
+                        ctx.fail(case, {'what': 'the answer to a graphic-type query changed when the regions of a volumetric ROI were '
+                                                'stored in reverse order', 'before': before[(method, f['graphic_type'])], 'after': now},
+                                 site=f'{method}/region-order')
+                reqs3.append(('queryItems', {'method': method, 'groups': model_groups,
+                                             'filters': {k: (list(v) if isinstance(v, tuple) else v) for k, v in f.items()}}))
+                pending3.append((case, ('ok', got) if ok else ('err', res[1])))
+    if only_idx is None and n >= len(combos):
+        ctx.exhaustive.append(f'all {len(combos)} (ROI group shape x malformation x position) combinations, every value of every single filter')
 
 
 def _helpers(ctx, reqs2, pending2):
@@ -812,6 +932,7 @@ def run(ctx):
     _shapes(ctx, reqs, pending, spec_reqs, spec_pending)
     reqs3, pending3 = [], []
     _third_party(ctx, reqs3, pending3)
+    _malformed(ctx, reqs3, pending3)
     answers = ctx.model(reqs + reqs2 + spec_reqs + reqs3)
     if answers is None:
         return
@@ -824,6 +945,8 @@ def run(ctx):
             ctx.disagree('L0', case, impl, model, 'third-party query: ok-vs-error')
         elif impl[0] == 'ok' and impl[1] != model[1]:
             ctx.disagree('L0', case, impl, model, 'third-party query: groups returned')
+        elif impl[0] == 'err' and impl[1] != model[1]:
+            ctx.disagree('L1', case, impl, model, 'third-party query: error kind (which arm of the loop body failed)')
     _compare(ctx, pending, answers[:len(reqs)])
     # the declarative statement of the theorems (specKind && specFilters, Lean) against the oracle's statement (Python)
     for (case, why, must, may), ans in zip(spec_pending, answers[len(reqs) + len(reqs2):len(reqs) + len(reqs2) + len(spec_reqs)]):
@@ -833,9 +956,11 @@ def run(ctx):
         if why:
             continue
         got = ans['ok']['spec']
-        if not (ans['ok']['consistent'] and ans['ok'].get('context_ok') and ans['ok'].get('clean_names')):
+        if not (ans['ok']['consistent'] and ans['ok'].get('context_ok') and ans['ok'].get('clean_names')
+                and ans['ok'].get('graphics_valid') and ans['ok'].get('sound')):
             ctx.disagree('L0', case, None, ans, 'spec: generated parameters violate a hypothesis of query_sound_complete '
-                                                '(consistent / ContextOK / CleanNames)')
+                                                '(consistent / graphicsValid / ContextOK / CleanNames) or the constructed '
+                                                'group is not sound')
         elif not (set(must) <= set(got) <= set(may)):
             ctx.disagree('L0', case, {'must': must, 'may': may}, got, 'spec: Lean specKind/specFilters vs oracle predicate')
     for (case, impl), ans in zip(pending2, answers[len(reqs):len(reqs) + len(reqs2)]):
@@ -858,6 +983,8 @@ def replay(ctx, case):
         _helpers(sub, [], [])
     elif case.get('stream') == 'thirdparty':
         _third_party(sub, [], [], only_idx=case['idx'])
+    elif case.get('stream') == 'malformed':
+        _malformed(sub, [], [], only_idx=case['idx'])
     elif case.get('stream') == 'shapes':
         _shapes(sub, [], [], [], [], only_idx=case['idx'])
     fl = [f for f in sub.failures if all(f['case'].get(k) == case.get(k) for k in ('method', 'path') if k in case)]
